@@ -229,8 +229,16 @@ TFinal ==
 \* a schedule the controller could not drive to completion (counted by the harness, no verdict)
 TStall == Ev.e = "stall" /\ flags' = {} /\ UNCHANGED <<kv, now, cfg, klen, pend>>
 
+\* persistent stores, after every thread returned and one more flush() returned: every block of
+\* the data area is either offered by the free-space manager or occupied by a live generation
+\* (every superseded, deleted or expired generation has been retired and released: C19)
+TSettled ==
+  /\ Ev.e = "settled"
+  /\ flags' = IF Ev.unwritten = 0 /\ Ev.free + Ev.live # Ev.data THEN {"retire"} ELSE {}
+  /\ UNCHANGED <<kv, now, cfg, klen, pend>>
+
 TNext == /\ l <= Len(Rec) /\ l' = l + 1
-         /\ (TReset \/ TInv \/ TPub \/ TRes \/ TMem \/ TFinal \/ TStall)
+         /\ (TReset \/ TInv \/ TPub \/ TRes \/ TMem \/ TFinal \/ TStall \/ TSettled)
 TSpec == TInit /\ [][TNext]_tvars
 
 (* ------------------------------ verdicts ------------------------------ *)
@@ -242,6 +250,8 @@ SweepSafe == "expire" \notin flags
 NotHidden == "index" \notin flags
 \* C13: usage never above the limit at any sampled instant, exact at quiescence
 MemBound == flags \cap {"limit", "mem", "len"} = {}
+\* C19: retirement completes once no reader holds the generation
+RetireSettled == "retire" \notin flags
 \* C14: scans
 RangeStable == flags \cap {"range", "index"} = {}
 
